@@ -310,3 +310,240 @@ pub fn ristretto_from_edwards(p: &EdwardsPoint) -> crate::ristretto::RistrettoPo
 pub fn ristretto_as_edwards(p: &crate::ristretto::RistrettoPoint) -> EdwardsPoint {
     p.0
 }
+
+// ------------------------------------------------------------------------
+// Vector backends: 4-lane field elements, parallel point formulas, cached tables
+// (callers must have checked that the CPU has the features)
+// ------------------------------------------------------------------------
+
+#[cfg(curve25519_dalek_backend = "simd")]
+pub mod avx2 {
+    use super::Fe;
+    use crate::backend::vector::avx2::edwards::{CachedPoint, ExtendedPoint};
+    use crate::backend::vector::avx2::field::{FieldElement2625x4, Lanes, Shuffle};
+    use crate::edwards::EdwardsPoint;
+
+    #[derive(Copy, Clone)]
+    pub struct V(pub(crate) FieldElement2625x4);
+
+    fn shuffle_of(name: &str) -> Shuffle {
+        match name {
+            "AAAA" => Shuffle::AAAA,
+            "BBBB" => Shuffle::BBBB,
+            "CACA" => Shuffle::CACA,
+            "DBBD" => Shuffle::DBBD,
+            "ADDA" => Shuffle::ADDA,
+            "CBCB" => Shuffle::CBCB,
+            "ABAB" => Shuffle::ABAB,
+            "BADC" => Shuffle::BADC,
+            "BACD" => Shuffle::BACD,
+            "ABDC" => Shuffle::ABDC,
+            _ => panic!("verif: unknown shuffle"),
+        }
+    }
+    fn lanes_of(name: &str) -> Lanes {
+        match name {
+            "C" => Lanes::C,
+            "D" => Lanes::D,
+            "AB" => Lanes::AB,
+            "AC" => Lanes::AC,
+            "CD" => Lanes::CD,
+            "AD" => Lanes::AD,
+            "BC" => Lanes::BC,
+            "ABCD" => Lanes::ABCD,
+            _ => panic!("verif: unknown lanes"),
+        }
+    }
+
+    impl V {
+        pub fn new(l: &[Fe; 4]) -> V {
+            V(FieldElement2625x4::new(&l[0].0, &l[1].0, &l[2].0, &l[3].0))
+        }
+        pub fn splat(x: &Fe) -> V {
+            V(FieldElement2625x4::splat(&x.0))
+        }
+        pub fn split(&self) -> [Fe; 4] {
+            let s = self.0.split();
+            [Fe(s[0]), Fe(s[1]), Fe(s[2]), Fe(s[3])]
+        }
+        /// The 5 x 8 raw 32-bit lanes.
+        pub fn raw(&self) -> [[u32; 8]; 5] {
+            let mut out = [[0u32; 8]; 5];
+            for i in 0..5 {
+                let x = (self.0).0[i];
+                out[i] = [
+                    x.extract::<0>(), x.extract::<1>(), x.extract::<2>(), x.extract::<3>(),
+                    x.extract::<4>(), x.extract::<5>(), x.extract::<6>(), x.extract::<7>(),
+                ];
+            }
+            out
+        }
+        pub fn op1(&self, op: &str, arg: &str) -> V {
+            match op {
+                "reduce" => V(self.0.reduce()),
+                "negate_lazy" => V(self.0.negate_lazy()),
+                "diff_sum" => V(self.0.diff_sum()),
+                "neg" => V(-self.0),
+                "square_and_negate_D" => V(self.0.square_and_negate_D()),
+                "shuffle" => V(self.0.shuffle(shuffle_of(arg))),
+                _ => panic!("verif: unknown op"),
+            }
+        }
+        pub fn op2(&self, o: &V, op: &str, arg: &str) -> V {
+            match op {
+                "mul" => V(&self.0 * &o.0),
+                "add" => V(self.0 + o.0),
+                "blend" => V(self.0.blend(o.0, lanes_of(arg))),
+                _ => panic!("verif: unknown op"),
+            }
+        }
+        pub fn mul_consts(&self, c: (u32, u32, u32, u32)) -> V {
+            V(self.0 * c)
+        }
+        pub fn conditional_select(a: &V, b: &V, c: bool) -> V {
+            use subtle::ConditionallySelectable;
+            V(FieldElement2625x4::conditional_select(&a.0, &b.0, subtle::Choice::from(c as u8)))
+        }
+    }
+
+    /// Parallel point formulas: op in {"roundtrip", "double", "add", "sub", "add_neg", "pow2"}.
+    pub fn point_op(op: &str, p: &EdwardsPoint, q: &EdwardsPoint, k: u32) -> EdwardsPoint {
+        let pe = ExtendedPoint::from(*p);
+        let qc = CachedPoint::from(ExtendedPoint::from(*q));
+        let r = match op {
+            "roundtrip" => pe,
+            "double" => pe.double(),
+            "add" => &pe + &qc,
+            "sub" => &pe - &qc,
+            "add_neg" => &pe + &(-&qc),
+            "pow2" => pe.mul_by_pow_2(k),
+            _ => panic!("verif: unknown point op"),
+        };
+        r.into()
+    }
+    /// The four lanes of the cached form of `q` (after ExtendedPoint -> CachedPoint).
+    pub fn cached_lanes(q: &EdwardsPoint) -> [Fe; 4] {
+        V(CachedPoint::from(ExtendedPoint::from(*q)).verif_inner()).split()
+    }
+    /// Lanes of entry k of the shipped AVX2 odd-multiples table.
+    #[cfg(feature = "precomputed-tables")]
+    pub fn odd_table_entry(k: usize) -> [Fe; 4] {
+        V(crate::backend::vector::avx2::constants::BASEPOINT_ODD_LOOKUP_TABLE.0[k].verif_inner()).split()
+    }
+}
+
+#[cfg(all(curve25519_dalek_backend = "unstable_avx512", nightly))]
+pub mod ifma {
+    use super::Fe;
+    use crate::backend::vector::ifma::edwards::{CachedPoint, ExtendedPoint};
+    use crate::backend::vector::ifma::field::{F51x4Reduced, F51x4Unreduced, Lanes, Shuffle};
+    use crate::edwards::EdwardsPoint;
+
+    #[derive(Copy, Clone)]
+    pub enum V {
+        U(F51x4Unreduced),
+        R(F51x4Reduced),
+    }
+
+    fn shuffle_of(name: &str) -> Shuffle {
+        match name {
+            "AAAA" => Shuffle::AAAA,
+            "BBBB" => Shuffle::BBBB,
+            "BADC" => Shuffle::BADC,
+            "BACD" => Shuffle::BACD,
+            "ADDA" => Shuffle::ADDA,
+            "CBCB" => Shuffle::CBCB,
+            "ABDC" => Shuffle::ABDC,
+            "ABAB" => Shuffle::ABAB,
+            "DBBD" => Shuffle::DBBD,
+            "CACA" => Shuffle::CACA,
+            _ => panic!("verif: unknown shuffle"),
+        }
+    }
+    fn lanes_of(name: &str) -> Lanes {
+        match name {
+            "D" => Lanes::D,
+            "C" => Lanes::C,
+            "AB" => Lanes::AB,
+            "AC" => Lanes::AC,
+            "AD" => Lanes::AD,
+            "BCD" => Lanes::BCD,
+            _ => panic!("verif: unknown lanes"),
+        }
+    }
+
+    impl V {
+        pub fn new(l: &[Fe; 4]) -> V {
+            V::U(F51x4Unreduced::new(&l[0].0, &l[1].0, &l[2].0, &l[3].0))
+        }
+        pub fn is_reduced(&self) -> bool {
+            matches!(self, V::R(_))
+        }
+        fn u(&self) -> F51x4Unreduced {
+            match self {
+                V::U(x) => *x,
+                V::R(x) => F51x4Unreduced::from(*x),
+            }
+        }
+        fn r(&self) -> F51x4Reduced {
+            match self {
+                V::R(x) => *x,
+                V::U(_) => panic!("verif: operation needs a reduced vector"),
+            }
+        }
+        pub fn split(&self) -> [Fe; 4] {
+            let s = self.u().split();
+            [Fe(s[0]), Fe(s[1]), Fe(s[2]), Fe(s[3])]
+        }
+        pub fn op1(&self, op: &str, arg: &str) -> V {
+            match op {
+                "reduce" => V::R(F51x4Reduced::from(self.u())),
+                "negate_lazy" => V::U(self.u().negate_lazy()),
+                "diff_sum" => V::U(self.u().diff_sum()),
+                "neg" => V::R(-self.r()),
+                "square" => V::U(self.r().square()),
+                "shuffle" => match self {
+                    V::U(x) => V::U(x.shuffle(shuffle_of(arg))),
+                    V::R(x) => V::R(x.shuffle(shuffle_of(arg))),
+                },
+                _ => panic!("verif: unknown op"),
+            }
+        }
+        pub fn op2(&self, o: &V, op: &str, arg: &str) -> V {
+            match op {
+                "mul" => V::U(&self.r() * &o.r()),
+                "add" => V::U(self.u() + o.u()),
+                "blend" => match (self, o) {
+                    (V::R(a), V::R(b)) => V::R(a.blend(b, lanes_of(arg))),
+                    _ => V::U(self.u().blend(&o.u(), lanes_of(arg))),
+                },
+                _ => panic!("verif: unknown op"),
+            }
+        }
+        pub fn mul_consts(&self, c: (u32, u32, u32, u32)) -> V {
+            V::U(&self.r() * c)
+        }
+    }
+
+    pub fn point_op(op: &str, p: &EdwardsPoint, q: &EdwardsPoint, k: u32) -> EdwardsPoint {
+        let pe = ExtendedPoint::from(*p);
+        let qc = CachedPoint::from(ExtendedPoint::from(*q));
+        let r = match op {
+            "roundtrip" => pe,
+            "double" => pe.double(),
+            "add" => &pe + &qc,
+            "sub" => &pe - &qc,
+            "add_neg" => &pe + &(-&qc),
+            "pow2" => pe.mul_by_pow_2(k),
+            _ => panic!("verif: unknown point op"),
+        };
+        r.into()
+    }
+    pub fn cached_lanes(q: &EdwardsPoint) -> [Fe; 4] {
+        V::R(CachedPoint::from(ExtendedPoint::from(*q)).verif_inner()).split()
+    }
+    #[cfg(feature = "precomputed-tables")]
+    pub fn odd_table_entry(k: usize) -> [Fe; 4] {
+        V::R(crate::backend::vector::ifma::constants::BASEPOINT_ODD_LOOKUP_TABLE.0[k].verif_inner()).split()
+    }
+}
